@@ -33,27 +33,30 @@ ASSUMPTIONS = [
     'peer supports safelink and always answers an acknowledged frame with at least a header byte',
     'application and firmware do not use port 15 / channel 3 (header & 0xF3 == 0xF3), which is the link layer\'s own '
     '(null packets, safelink enable)',
-    'a transmission has one of three outcomes: delivered+acked, uplink lost, delivered+ack lost; USB errors '
-    '(radio.send_packet returning None or raising) are outside the property (modelled and tied for None, not for '
-    'exceptions)',
-    'RadioDriver.send_packet on a full out_queue blocks; its 2 s timeout (a second source of link_error_callback) '
-    'is wall-clock behaviour and not modelled',
+    'a transmission has one of three outcomes: delivered+acked, uplink lost, delivered+ack lost; iterations in which the '
+    'dongle returns None (usb.USBError) may occur anywhere (modelled, proved transparent, tied); iterations in which '
+    'radio.send_packet raises are a reported link failure and outside the delivery / link-error theorems (modelled, tied, '
+    'behaviour stated as theorems C01_usb_exception_*)',
+    'time is not modelled: the 2 s of RadioDriver.send_packet and the wait of receive_packet appear as the events '
+    '"timed out" / "returned None"; rate limiting and relaxation sleeps are left out',
     '_nr_of_retries is not changed while the link is open',
 ]
-PROVED = ('For every start-up script, every peer start state and every interleaving of Submit / PeerQueue / Recv / '
-          'Tx{Ok,UpLost,AckLost} events after a confirmed negotiation: received-by-peer ++ pending == accepted and '
-          'got ++ in_queue ++ pending == queued (null packets filtered), pending having at most two elements; two '
-          'acknowledged transmissions flush everything pending; the link-error callback fires at a transmission iff '
-          'it is unacknowledged and is the N-th consecutive one since the last acknowledgement (both modes); '
-          'safelink mode iff one of at most 10 attempts was answered by exactly ff 05 01, needs_resending is its '
-          'negation, frames are untouched when not in safelink mode; dataOut is never empty.')
-NOT_PROVED = ('Behaviour when the negotiation is not confirmed but the peer enabled safelink (two generals), USB '
-              'exceptions, the 2 s put timeout, pause()/restart(), rate limiting and relaxation sleeps (timing), the '
-              'shared-radio multiplexing thread, real firmware conformance to the peer model.')
-
-EXPLANATION = ('Alternating-bit (safelink) radio loop: Coq model of host loop + reconstructed peer + lossy channel; invariant proved '
-               'for all event lists; model compared with the real loop run synchronously on a fake USB dongle; oracle restates '
-               'the property on the observables, also on sessions with real threads.')
+PROVED = ('For every start-up script, every peer start state and every interleaving of Submit / SubmitTimeout / PeerQueue / '
+          'Recv / RecvWait / Tx{Ok,UpLost,AckLost} / silent USB error events after a confirmed negotiation: '
+          'received-by-peer ++ pending == accepted and got ++ in_queue ++ pending == queued (null packets filtered), pending '
+          'having at most two elements; two acknowledged transmissions flush everything pending; the link-error callback '
+          'of the loop fires at a transmission iff it is unacknowledged and is the N-th consecutive one since the last '
+          'acknowledgement (both modes); safelink mode iff one of at most 10 attempts was answered by exactly ff 05 01, '
+          'needs_resending is its negation, frames are untouched when not in safelink mode; dataOut is never empty. '
+          'Round 2: what an exception of radio.send_packet does (one report, stale answer processed again) with witnesses '
+          'that exactly-once and the loss count break AFTER it; witness that without confirmation one lost ack duplicates and '
+          'loses; the sending-thread report happens iff a put times out on a full queue and only if no transmission was '
+          'acknowledged since that packet was accepted; receive_packet wait modes; close() discards out_queue; the parsing '
+          'of all 256 dongle status bytes.')
+NOT_PROVED = ('No guarantee when the negotiation is not confirmed but the peer enabled safelink (two generals) nor after an '
+              'exception of radio.send_packet (refuted by witness). Not modelled: wall-clock time, pause()/restart(), rate '
+              'limiting and relaxation sleeps, the shared-radio multiplexing thread, rate/RSSI/congestion statistics (only '
+              'shown not to influence the link: differential runs), real firmware conformance to the peer model.')
 
 HEADER = 'From CF Require Import Common.Bytes C01.Model.\nOpen Scope Z_scope.\n'
 
@@ -101,9 +104,18 @@ def coq_term(case):
                 evs.append('HRecv')
             elif e[0] == 'W':
                 evs.append('HTx %s' % _usb(e[1]))
+            elif e[0] == 'N':
+                evs.append('HTx None')
+            elif e[0] == 'E':
+                evs.append('HTxExc')
+            elif e[0] == 'ST':
+                evs.append('HSubmitTimeout %s %s' % (coqrun.z(e[1]), _zl(e[2])))
+            elif e[0] == 'RW':
+                evs.append('HRecvWait %s' % coqrun.z(e[1]))
             else:
                 raise ValueError(e)
-        return 'host_session_obs %s [%s] [%s]' % (coqrun.z(case['N']), '; '.join(_usb(u) for u in us), '; '.join(evs))
+        return 'host_session_obs %s [%s] [%s] %s' % (coqrun.z(case['N']), '; '.join(_usb(u) for u in us), '; '.join(evs),
+                                                     _b(case.get('close')))
     p0 = case['p0']
     peer = '(mkPeer %s %s %s [] %s %s)' % (_b(p0['on']), _b(p0['up']), _b(p0['down']), _fl(p0['txq']),
                                           'None' if p0['last'] is None else '(Some %s)' % _zl(p0['last']))
@@ -123,9 +135,18 @@ def coq_term(case):
             evs.append('Recv')
         elif e[0] == 'T':
             evs.append('Tx %s %s' % (_OUT[e[1]], _zl(e[2])))
+        elif e[0] == 'N':
+            evs.append('TxUsb false')
+        elif e[0] == 'E':
+            evs.append('TxUsb true')
+        elif e[0] == 'ST':
+            evs.append('SubmitTimeout %s %s' % (coqrun.z(e[1]), _zl(e[2])))
+        elif e[0] == 'RW':
+            evs.append('RecvWait %s' % coqrun.z(e[1]))
         else:
             raise ValueError(e)
-    return 'session_obs %s %s [%s] [%s]' % (coqrun.z(case['N']), peer, '; '.join(negs), '; '.join(evs))
+    return 'session_obs %s %s [%s] [%s] %s' % (coqrun.z(case['N']), peer, '; '.join(negs), '; '.join(evs),
+                                               _b(case.get('close')))
 
 
 # A cheap checksum of the observation list, computed inside Coq and in Python (Common.Digest's prime-field digest
@@ -265,20 +286,30 @@ def random_case(rng, maxlen):
                   for _ in range(rng.randrange(0, 3))],
           'last': None if rng.random() < 0.7 else [_fw_hdr(rng), 1]}
     evs = []
+    api = rng.random() < 0.5            # use the whole RadioDriver API (timeouts, wait modes) and silent USB errors
+    exc = rng.random() < 0.12           # radio.send_packet raises now and then (outside the property; tie only)
     for i in range(n):
         r = rng.random()
         if r < 0.22:
-            evs.append(['S', _app_hdr(rng), [rng.randrange(256) for _ in range(rng.randrange(0, 6))]])
+            kind_s = 'ST' if api and rng.random() < 0.4 else 'S'
+            evs.append([kind_s, _app_hdr(rng), [rng.randrange(256) for _ in range(rng.randrange(0, 6))]])
         elif r < 0.40:
             evs.append(['Q', _fw_hdr(rng), [rng.randrange(256) for _ in range(rng.randrange(0, 6))]])
         elif r < 0.52:
-            evs.append(['R'])
+            evs.append(['RW', rng.choice([0, -1, -2, 1, 3])] if api and rng.random() < 0.6 else ['R'])
+        elif api and r < 0.57:
+            evs.append(['N'])
+        elif exc and r < 0.62:
+            evs.append(['E'])
         else:
             o = 'O' if rng.random() > p_loss else rng.choice('UA')
             evs.append(['T', o, rng.choice([[], [1, rng.randrange(256)], [rng.randrange(256)]])])
     if rng.random() < 0.6:
         evs.append(['D'])
-    return {'N': N, 'p0': p0, 'negs': negs, 'evs': evs, 'family': 'random'}
+    c = {'N': N, 'p0': p0, 'negs': negs, 'evs': evs, 'family': 'random'}
+    if rng.random() < 0.3:
+        c['close'] = 1
+    return c
 
 
 def host_case(rng, maxlen):
@@ -321,9 +352,18 @@ def host_case(rng, maxlen):
             st = 0x01 | (rng.randrange(4) << 4)
             evs += [['W', [st]] for _ in range(rng.choice([3, 6, 7, 8, 9, 12]))]
             evs.append(['W', [st, rng.randrange(256), rng.randrange(256)]])
+        elif r < 0.46:
+            evs.append(['E'])
+        elif r < 0.50:
+            evs.append(['ST', rng.randrange(256), [rng.randrange(256) for _ in range(rng.randrange(0, 3))]])
+        elif r < 0.54:
+            evs.append(['RW', rng.choice([0, -1, 2, 7])])
         else:
             evs.append(['W', usb(kind < 0.6)])
-    return {'N': rng.choice([1, 2, 3, 5]), 'host_only': 1, 'negs': negs, 'evs': evs, 'family': 'host'}
+    c = {'N': rng.choice([1, 2, 3, 5]), 'host_only': 1, 'negs': negs, 'evs': evs, 'family': 'host'}
+    if rng.random() < 0.3:
+        c['close'] = 1
+    return c
 
 
 def threaded_case(rng, ntx, napp):
@@ -356,9 +396,9 @@ def corpus_cases():
 
 def all_cases(ctx):
     cs = corpus_cases()
-    cs += enum_cases(ctx.scale(6, 9), ctx.scale(4, 6))
-    cs += [random_case(ctx.rng, ctx.scale(120, 400)) for _ in range(ctx.scale(150, 2500))]
-    cs += [host_case(ctx.rng, ctx.scale(40, 120)) for _ in range(ctx.scale(200, 3000))]
+    cs += enum_cases(ctx.scale(5, 9), ctx.scale(3, 6))
+    cs += [random_case(ctx.rng, ctx.scale(100, 400)) for _ in range(ctx.scale(110, 2500))]
+    cs += [host_case(ctx.rng, ctx.scale(40, 120)) for _ in range(ctx.scale(110, 3000))]
     return cs
 
 
@@ -440,6 +480,32 @@ def tie(ctx):
                         'case': c, 'first_difference_at': first,
                         'model': None if mv is None else mv[max(0, (first or 0) - 12):(first or 0) + 12],
                         'impl': exp[bi][max(0, (first or 0) - 12):(first or 0) + 12]})
+    # ---- dongle answer parsing: every status byte through the real Crazyradio.send_packet (two ARC settings)
+    from fakes import c01_radio
+    pterms, pexp = [], []
+    for arc in (3, 11):
+        pterms.append('concat (map (fun s => ack_obs (parse_ack %d (Some [s; s mod 7; 9; 255 - s]))) (zr 0 256))' % arc)
+        pexp.append(c01_radio.parse_all_status(arc, lambda s: [s % 7, 9, 255 - s]))
+    pterms.append('concat (map (fun s => ack_obs (parse_ack 3 (Some [s]))) (zr 0 256))')
+    pexp.append(c01_radio.parse_all_status(3, lambda s: []))
+    # ---- link-quality window of RadioLinkStatistics (bookkeeping only; nothing in the loop reads it)
+    lrng = __import__('random').Random(ctx.seed + 77)
+    lqs = [[lrng.randrange(0, 16) for _ in range(lrng.choice([1, 5, 99, 100, 101, 180, 260]))] for _ in range(ctx.scale(12, 60))]
+    for rs in lqs:
+        pterms.append('let w := fold_left lq_push %s [] in [lq_sum w; Z.of_nat (length w)]' % _zl(rs))
+        sm, ln, val = c01_radio.link_quality_run(rs)
+        pexp.append([sm, ln])
+        if val is None or abs(val - float(sm) / ln * 10) > 1e-9:
+            dis.append({'what': 'link_quality is not sum/len*10 of the window', 'retries': rs[:20], 'impl': val, 'model': [sm, ln]})
+    zr = 'Fixpoint zr (a : Z) (n : nat) : list Z := match n with O => [] | S k => a :: zr (a + 1) k end.\n'
+    pv = coqrun.eval_terms(DG_HEADER + zr, ['dg (%s)' % t for t in pterms], tag='c01p', shard=200)
+    for k, (d, e) in enumerate(zip(pv, pexp)):
+        d3 = (d[0][0], d[0][1], d[1]) if isinstance(d[0], tuple) else tuple(d)
+        if d3 != _dg(e):
+            dis.append({'what': 'dongle answer parsing / link-quality window: model and implementation differ',
+                        'term': pterms[k][:200], 'impl': e[:40], 'model': None})
+    dist['status_bytes_parsed'] = 3 * 256
+    dist['link_quality_sequences'] = len(lqs)
     samples = []
     for c, sim, _ in res:
         if sim is not None and c.get('family') == 'random' and _nontrivial(c, sim):
@@ -448,7 +514,7 @@ def tie(ctx):
             if len(samples) >= 3:
                 break
     return {
-        'evaluations': len(terms),
+        'evaluations': len(terms) + len(pterms),
         'distinct_nontrivial': nontriv,
         'rule': 'distinct explicit scripts with >= 1 unacknowledged transmission and >= 2 non-null packets delivered in '
                 'each direction (host-only family: >= 1 unacknowledged/USB-error answer and >= 2 packets received); '
@@ -475,9 +541,9 @@ def _preconditions(case):
     if any(not _nn(q) for q in case['p0'].get('txq', [])):
         return False
     for e in case['evs']:
-        if e[0] in ('S', 'Q') and (e[1] & 0xf3) == 0xf3:
+        if e[0] in ('S', 'Q', 'ST') and (e[1] & 0xf3) == 0xf3:
             return False
-        if e[0] == 'W':
+        if e[0] in ('W', 'E'):          # raw answers / exceptions of the dongle: outside the property
             return False
     return True
 
@@ -510,11 +576,19 @@ def judge(case, sim):
         bad = [t['frame'] for t in sim.tx if t['frame'] not in allowed]
         if bad:
             fail('frames_altered_without_safelink', 'packets as submitted', bad[:3], 'without safelink the header bits are not to be touched')
-    # ---- link error exactly at the N-th consecutive unacknowledged transmission
-    if all(t.get('ack') is not None for t in sim.tx):
+    # ---- link error exactly at the N-th consecutive unacknowledged transmission.  An iteration in which the
+    #      dongle returned None is not a transmission (neither counted nor resetting); sessions in which
+    #      radio.send_packet raised are outside the property (only: every exception must be reported).
+    n_exc = sum(1 for t in sim.tx if t.get('ack') == 'exc')
+    if fin['exc_errors'] != n_exc:
+        fail('usb_exception_not_reported_once', n_exc, fin['exc_errors'],
+             'every exception of radio.send_packet is reported as a link error, once')
+    if n_exc == 0:
         N = case['N']
         run, exp_idx = 0, []
         for i, t in enumerate(sim.tx, 1):
+            if t.get('ack') is None:
+                continue
             if t['ack']:
                 run = 0
             else:
@@ -525,11 +599,18 @@ def judge(case, sim):
         if got_idx != exp_idx:
             fail('link_error_not_exact', exp_idx, got_idx,
                  'link error must be reported at (and only at) the N-th consecutive unacknowledged transmission, N=%d' % N)
-        other = fin['other_errors']
-        if case.get('threaded'):      # the 2 s put timeout is wall-clock behaviour (machine load), outside the property
-            other = [m for m in other if not m.startswith('RadioDriver: Could not send packet')]
-        if other:
-            fail('unexpected_link_error', [], other[:2], 'no other link error is expected')
+    other = fin['other_errors']
+    if other:
+        fail('unexpected_link_error', [], other[:2], 'no other link error is expected')
+    if fin['send_errors'] and not case.get('threaded'):
+        # the sending thread may report only when its put timed out, i.e. on a full queue: never after an accepted put
+        n_st = sum(1 for e in sim.executed if e[0] == 'ST')
+        if fin['send_errors'] > n_st:
+            fail('send_timeout_reported_without_timeout', '<= %d' % n_st, fin['send_errors'], 'Could not send packet')
+    if fin.get('closed'):
+        cl = fin['closed']
+        if not (cl['radio_closed'] == 1 and cl['radio_ref'] and cl['callbacks_cleared'] and cl['out_queue_empty']):
+            fail('close_incomplete', 'dongle closed once, callbacks cleared, out_queue emptied', cl, 'RadioDriver.close()')
     # ---- exactly once, in order, both directions
     if confirmed and _preconditions(case):
         drained = bool(case['evs']) and case['evs'][-1][0] == 'D'
@@ -594,10 +675,28 @@ def oracle(ctx, deep=False):
             except Exception:
                 import traceback
                 res.append((c, None, traceback.format_exc()[-1200:]))
+    # link statistics must not influence the link: same script with a statistics callback and a statistics clock
+    # that makes every rate/congestion branch run => identical observations
+    stat_fail = None
+    n_stat = 0
+    for i, (c, sim, err) in enumerate(res[:]):
+        if sim is None or i % ctx.scale(6, 10) or c.get('threaded'):
+            continue
+        n_stat += 1
+        try:
+            s2 = run_impl(dict(c, stats=1))
+            same = (s2.flat_host == sim.flat_host) if c.get('host_only') else (s2.flat == sim.flat)
+            if not same or (any(t.get('ack') is True for t in s2.tx) and not s2.stats):
+                stat_fail = (c, 'observations differ' if not same else 'statistics callback never called')
+        except Exception:
+            import traceback
+            stat_fail = (c, traceback.format_exc()[-600:])
+        if stat_fail:
+            break
     # real-thread sessions (non-deterministic schedules; oracle only)
     trng = __import__('random').Random(ctx.seed * 7919 + 13)
-    for _ in range(ctx.scale(8, 80) * (3 if deep else 1)):
-        c = threaded_case(trng, 2500, 250)
+    for _ in range(ctx.scale(5, 80) * (3 if deep else 1)):
+        c = threaded_case(trng, ctx.scale(1500, 2500), ctx.scale(150, 250))
         try:
             res.append((c, run_impl(c), None))
         except Exception:
@@ -605,7 +704,12 @@ def oracle(ctx, deep=False):
             res.append((c, None, traceback.format_exc()[-1200:]))
     fails = []
     seen = set()
-    n = 0
+    n = n_stat
+    if stat_fail:
+        seen.add('statistics_affect_the_link')
+        fails.append({'class': 'statistics_affect_the_link', 'case': {k: v for k, v in stat_fail[0].items() if k != 'family'},
+                      'expected': 'same observations with and without a statistics callback', 'observed': stat_fail[1],
+                      'detail': 'RadioLinkStatistics.update runs inside the radio loop'})
     for c, sim, err in res:
         n += 1
         if sim is None:
@@ -635,6 +739,13 @@ def oracle(ctx, deep=False):
 
 def replay(payload, ctx):
     c = payload['case']
+    if payload.get('class') == 'statistics_affect_the_link':
+        try:
+            a, b = run_impl(c), run_impl(dict(c, stats=1))
+            same = (a.flat_host == b.flat_host) if c.get('host_only') else (a.flat == b.flat)
+            return None if same else {'class': 'statistics_affect_the_link', 'observed': 'observations differ'}
+        except Exception as e:
+            return {'class': 'statistics_affect_the_link', 'observed': repr(e)}
     try:
         sim = run_impl(c)
     except Exception as e:
